@@ -1,6 +1,7 @@
 import Ruint.Lemmas.FloatTryG
 import Ruint.Props.C06
 import Ruint.Gen.WordsToFloat
+import Ruint.Lemmas.GenFloat
 import Ruint.Lemmas.FloatMsb
 import Ruint.Lemmas.FloatOld
 import Ruint.Lemmas.FloatOrd
@@ -304,5 +305,31 @@ theorem gen_to_float_eq (bits : ℕ) (hN : nlimbs bits < 2 ^ 57) (l : List ℕ) 
     · simp only; rw [h2, hs]
   unfold Ruint.Gen.f64_from_uint Ruint.Gen.f32_from_uint toFloatV toFloatOf
   refine ⟨?_, ?_⟩ <;> simp only [hm]
+
+/-! ## Tie of `TryFrom<f64>` / `TryFrom<f32> for Uint` to the source (G, value mode over the IEEE model)
+
+`Ruint.Gen.val_try_from_f64` is regenerated from `src/from.rs` on every run: an `f64` is its bit pattern, the float literals are
+converted to their binary64 patterns by the translator, `is_nan`, `<`, `>=`, `abs`, `%`, `+`, `is_normal` and
+`(BITS as f64).exp2()` are the model's operations, `to_bits` is the identity, and the function's two recursive calls (on `|value|`
+and on `value % modulus`) are recursion on fuel. The order of the range checks, the `2^52` rounding guard, the field extraction
+(`>> 63`, `>> 52 & 0x7ff`, the mantissa), the three asserts, the exponent comparisons, the `?` and the overflow flag of
+`overflowing_shl` are the source's. With the fuel the model uses (3) it is the model the theorems above are about; a recursive
+call never panics and never recurses further (proved in `Lemmas/GenFloat.lean`), so any fuel `≥ 3` gives the same. -/
+
+theorem gen_try_from_f64_eq (bits L x : ℕ) (hbits : bits + 52 < 2 ^ 64) :
+    Ruint.GenFloat.toRes (Ruint.Gen.val_try_from_f64 3 bits L x) = tryFromF64 bits x :=
+  Ruint.GenFloat.try_from_f64_eq bits L x hbits
+
+theorem gen_try_from_f64_any_fuel (bits L : ℕ) (hbits : bits + 52 < 2 ^ 64) (f x : ℕ) (hf : f = 0 ∨ 3 ≤ f) :
+    Ruint.GenFloat.toRes (Ruint.Gen.val_try_from_f64 f bits L x) = tryFromF64F true f bits x :=
+  Ruint.GenFloat.try_from_f64F_eq bits L hbits f x hf
+
+/-- `TryFrom<f32>`: the widening cast, then `TryFrom<f64>`. -/
+theorem gen_try_from_f32_eq (bits L x : ℕ) (hbits : bits + 52 < 2 ^ 64) :
+    Ruint.GenFloat.toRes (Ruint.Gen.val_try_from_f32 3 bits L x) = tryFromF32 bits x := by
+  have h := Ruint.GenFloat.try_from_f64_eq bits L (f32ToF64 x) hbits
+  unfold Ruint.Gen.val_try_from_f32 tryFromF32
+  rw [← h]
+  cases Ruint.Gen.val_try_from_f64 3 bits L (f32ToF64 x) <;> rfl
 
 end Ruint.C18
